@@ -44,10 +44,10 @@ var pureExternPrefixes = []string{
 	"reflect.TypeOf", "reflect.DeepEqual", "(reflect.Type).",
 	"github.com/ethereum/go-ethereum/crypto.VerifySignature", "github.com/ethereum/go-ethereum/crypto.FromECDSAPub", "github.com/ethereum/go-ethereum/crypto.CompressPubkey", "crypto/ed25519.Verify",
 	"runtime/debug.Stack", "runtime.Caller", "runtime.FuncForPC", "(*runtime.Func).Name",
-	"sync/atomic.Load", "(*sync/atomic.Int64).Store", "(*sync/atomic.Bool).Load", "(*sync/atomic.Int64).Load", "(*sync/atomic.Uint64).Load", "(*sync/atomic.Int32).Load",
+	"sync/atomic.Load", "(*sync/atomic.Int64).Store", "(*sync/atomic.Uint64).Store", "(*sync/atomic.Int32).Store", "(*sync/atomic.Bool).Load", "(*sync/atomic.Int64).Load", "(*sync/atomic.Uint64).Load", "(*sync/atomic.Int32).Load",
 	"(*sync.Mutex).", "(*sync.RWMutex).", "(sync.Locker).",
 	"(lib.LoggerI).", "(lib.ErrorI).", "(lib/crypto.PublicKeyI).", "(lib/crypto.AddressI).",
-	"(google.golang.org/protobuf/reflect/protoreflect.Message).Descriptor",
+	"(google.golang.org/protobuf/reflect/protoreflect.Message).Descriptor", "(google.golang.org/protobuf/internal/impl.Export).MessageStringOf",
 	"github.com/drand/kyber", "(github.com/drand/kyber",
 	"google.golang.org/protobuf/encoding/protowire.", "reflect.ValueOf", "(reflect.Value).Kind", "(reflect.Value).IsNil", "(reflect.Value).Len",
 	"(google.golang.org/protobuf/reflect/protoreflect.", "cmp.Compare", "bytes.NewReader", "bytes.NewBuffer",
